@@ -310,6 +310,45 @@ theorem listing_pagewalk_complete_auto (t : Tbl) (kw : List Nat) (h0 : ∀ x ∈
       | true => exact autoStart_asc t.maxBoard t.nameLen t.byName kw ok hv hn S D
       | false => exact autoStart_desc_all t.maxBoard t.nameLen t.byName kw ok hb hv hn S D V
 
+/-! ### the cursor the bbs layer serialises resolves to its own entry; bbs.LoadGeneralBoardDetails -/
+
+/-- by name: the cursor of the board at position `p` (its name as `NewBoardSummaryFromRaw` / `NewBoardDetailFromRaw`
+serialise it) resolves to `p + 1` in both directions — for every non-vacated board, listable or not. -/
+theorem cursor_resolves_name (t : Tbl) (hn : NamesLen t.nameLen t.byName)
+    (hv : ∀ e ∈ t.byName, e.bid + 1 ≤ t.maxBoard) (S : SortedBy lexCmp nkey t.byName) (D : DistinctNames t.byName)
+    (p : Nat) (hp : p < t.byName.length) (hne : nkey t.byName[p] ≠ []) (isAsc : Bool) :
+    startOfCursor t .name (some (cursorOf t.byName[p])) isAsc = .ok (Int.ofNat p + 1) :=
+  startOfCursor_name_self t hn hv S D p hp hne isAsc
+
+/-- by class: the cursor carries the class column AS STORED — the C string of `Title[:4]`, blank padding included
+(`"bb  "`), which is the key the table is sorted and searched by; it resolves to its own entry.  A cursor with the
+padding stripped does not (`stripped_cursor_witness`). -/
+theorem cursor_resolves_class (t : Tbl) (H : ClassView t) (p : Nat) (hp : p < t.byClass.length)
+    (hne : nkey t.byClass[p] ≠ []) (isAsc : Bool) :
+    startOfCursor t .cls (some (cursorOf t.byClass[p])) isAsc = .ok (Int.ofNat p + 1) :=
+  startOfCursor_class_self t H p hp hne isAsc
+
+/-- bbs.LoadGeneralBoardDetails by name (no group / permission filter; since fix 6f287ee vacated slots are skipped and
+skipped entries do not count against the page): for EVERY view — vacated slots anywhere — paging through the
+next-cursor returns every non-vacated slot once, in order, and ends. -/
+theorem listing_pagewalk_complete_details_name (t : Tbl) (hn : NamesLen t.nameLen t.byName)
+    (hv : ∀ e ∈ t.byName, e.bid + 1 ≤ t.maxBoard) (S : SortedBy lexCmp nkey t.byName) (D : DistinctNames t.byName)
+    (n : Nat) (h1 : 1 ≤ n) (isAsc : Bool) :
+    walkDetails t .name (n : Int) isAsc =
+      .ok (pagesOf n (visibleDetails t.maxBoard t.byName isAsc).length (visibleDetails t.maxBoard t.byName isAsc)) :=
+  walk_details t .name (fun p hp hne a => startOfCursor_name_self t hn hv S D p hp hne a) n h1 isAsc
+
+/-- bbs.LoadGeneralBoardDetails by class, every view. -/
+theorem listing_pagewalk_complete_details_class (t : Tbl) (H : ClassView t) (n : Nat) (h1 : 1 ≤ n) (isAsc : Bool) :
+    walkDetails t .cls (n : Int) isAsc =
+      .ok (pagesOf n (visibleDetails t.maxBoard t.byClass isAsc).length (visibleDetails t.maxBoard t.byClass isAsc)) :=
+  walk_details t .cls (fun p hp hne a => startOfCursor_class_self t H p hp hne a) n h1 isAsc
+
+/-- with valid bids, "kept by LoadGeneralBoardDetails" = "not a vacated slot". -/
+theorem detailOK_iff (maxBoard : Nat) (e : Entry) (hv : e.bid + 1 ≤ maxBoard) :
+    detailOK maxBoard e = (e.b.name.getD 0 0 != 0) := by
+  simp [detailOK, validBid, hv]
+
 /-- every board visited exactly once: the concatenation of the pages is the visible list (all three listings). -/
 theorem pagewalk_visits_all_name (t : Tbl) (hn : NamesLen t.nameLen t.byName)
     (hv : ∀ e ∈ t.byName, e.bid + 1 ≤ t.maxBoard) (S : SortedBy lexCmp nkey t.byName) (D : DistinctNames t.byName)
@@ -371,5 +410,56 @@ between it and the successor keyword `xA` exhaust the probe). -/
 theorem lastAt_witness :
     autoStart 100 13 [⟨0, brd [120, 64, 97] [97] 32⟩, ⟨1, brd [120, 95, 49] [97] 32⟩, ⟨2, brd [120, 95, 50] [97] 32⟩,
       ⟨3, brd [120, 95, 51] [97] 32⟩] [120, 64] false = .ok (-1) := by rfl
+
+/-- boards `a`, `b`, both of the blank-padded class `"bb  "` (a class shorter than 4 bytes): page boundaries inside
+the class are crossed correctly … -/
+def padTbl : Tbl :=
+  let v : List Entry := [⟨0, brd [97] [98, 98, 32, 32] 32⟩, ⟨1, brd [98] [98, 98, 32, 32] 32⟩]
+  ⟨100, 13, v, v⟩
+
+example : ClassView padTbl := by
+  refine ⟨?_, ?_, ?_, ?_, ?_, ?_⟩ <;> simp only [padTbl] <;> first | decide | (unfold SortedBy; decide) | (unfold DistinctNames; decide) | (unfold NamesLen; decide)
+example : (walkGeneral padTbl .cls 1 true).map (·.map (·.map (·.bid))) = .ok [[0], [1]] := by rfl
+example : (walkDetails padTbl .cls 1 false).map (·.map (·.map (·.bid))) = .ok [[1], [0]] := by rfl
+example : startOfCursor padTbl .cls (some (cursorOf ⟨1, brd [98] [98, 98, 32, 32] 32⟩)) true = .ok 2 := by rfl
+
+/-- … but only because the cursor carries the class as stored: with the blank padding stripped (`"bb"`) the cursor of
+board `b` is an absent key below its whole class and resolves to board `a` (ascending: the same page for ever). -/
+theorem stripped_cursor_witness :
+    startOfCursor padTbl .cls (some ⟨[98, 98], [98]⟩) true = .ok 1 ∧
+      startOfCursor padTbl .cls (some ⟨[98, 98], [98]⟩) false = .ok (-1) := ⟨by rfl, by rfl⟩
+
+/-- the loop of ptt.LoadGeneralBoardDetails BEFORE fix 6f287ee: no filter, and an entry skipped for an invalid bid
+still counted against `nBoards + 1`. -/
+def collectDOld (maxBoard : Nat) : List Entry → Nat → List Entry
+  | [], _ => []
+  | _ :: _, 0 => []
+  | e :: rest, cap + 1 =>
+    if validBid maxBoard e then e :: collectDOld maxBoard rest cap else collectDOld maxBoard rest cap
+
+def walkDetailsOld (t : Tbl) (by_ : SortBy) (nBoards : Int) (isAsc : Bool) : R (List (List Entry)) :=
+  walkFrom (fun c => do
+      let startIdx ← startOfCursor t by_ c isAsc
+      if startIdx < 0 then pure ⟨[], none⟩
+      else liftM (pttLoadG (collectDOld t.maxBoard) (t.view by_) startIdx nBoards isAsc))
+    by_ (walkFuel (t.view by_).length) none
+
+def vacTbl : Tbl :=
+  let v : List Entry := [⟨0, ⟨nm [], [0, 0, 0, 0, 0, 0, 0, 0], false⟩⟩, ⟨1, ⟨nm [], [0, 0, 0, 0, 0, 0, 0, 0], false⟩⟩,
+    ⟨2, brd [97] [97, 97, 97, 97] 32⟩, ⟨3, brd [98] [97, 97, 97, 97] 32⟩]
+  ⟨100, 13, v, v⟩
+
+/-- the defect repaired by 6f287ee (found by this check): two vacated slots, by name, page size 1: under the OLD rule
+the look-ahead was a vacated slot, whose name serialises to the empty cursor = "no next page": the walk ended after the
+first slot and boards `a`, `b` were never returned; by class all vacated slots share one key and the walk never
+ended.  Keys `walk:details-name+vacated`, `walk:details-class+vacated`. -/
+theorem details_vacated_witness :
+    (walkDetailsOld vacTbl .name 1 true).map (·.map (·.map (·.bid))) = .ok [[0]] ∧
+      walkDetailsOld ⟨100, 13, [], [⟨0, ⟨nm [], [0, 0, 0, 0, 0, 0, 0, 0], false⟩⟩, ⟨1, ⟨nm [], [0, 0, 0, 0, 0, 0, 0, 0], false⟩⟩,
+        ⟨2, ⟨nm [], [0, 0, 0, 0, 0, 0, 0, 0], false⟩⟩]⟩ .cls 1 true = .error (.fault .diverge) := ⟨by rfl, by rfl⟩
+
+/-- … and the repaired code on the same table. -/
+example : (walkDetails vacTbl .name 1 true).map (·.map (·.map (·.bid))) = .ok [[2], [3]] := by rfl
+example : (walkDetails vacTbl .cls 1 false).map (·.map (·.map (·.bid))) = .ok [[3], [2]] := by rfl
 
 end PttVerif.C11.Props
